@@ -243,5 +243,6 @@ def relayout(src, r, comments=True):
         elif x < 0.27 and comments: out += r.choice([" # c\n", " // c if (\n", "\t#\n", " # see maps/*/x.pory /* y\n", " // */ end of it\n", " # 2 potions below\n", " #1 \"f\"\n"])
         elif x < 0.31: out += "\r\n"
         elif wordy or x < 0.7: out += r.choice([" ", " ", "  ", "\t"])
+        elif t in ("|", "+", "^", "~", "*") and nxt == "~": out += r.choice(["", "", " "])       # operator characters may touch
         elif t in "=!<>&|/" or nxt[:1] in "=&|/" or (t == "-" ) or (nxt[:1].isdigit() and t[-1] == "-"): out += " "
     return out
